@@ -386,6 +386,45 @@ def check(ctx):
     ctx.ob("C14.R2", tr, "Var.transform dispatches to the class helper (class or default "
                          "bijector, with the bijector arguments) or the instance helper",
            ok_d, detail=str([short(t, 100) for t, _ in helpers]))
+    if ok_d:
+        # which helper runs for which kind of bijector: path conditions evaluated for the
+        # kinds {class with arguments, None with a default, instance without arguments}
+        from .c13 import partial_eval
+        BJ = n("bijector")
+        is_cls = ("call", ("g", f"{NODES}.is_bijector_class"), (BJ,), ())
+        is_none = ("cmp", "is", BJ, c(None))
+        is_inst = [x for _, cond in helpers for a, _p in cond for x in subterms(a)
+                   if is_call(x, "isinstance") and x[2][:1] == (BJ,)]
+        has_args = ("bool", "or", (n("bijector_args"), n("bijector_kwargs")))
+        kinds = {"class": (True, False, False, True), "default": (False, True, False, False),
+                 "instance": (False, False, True, False)}
+        wrong = []
+        for kind, (cl_, no_, in_, ar_) in kinds.items():
+            facts_ = {is_cls: cl_, is_none: no_, has_args: ar_,
+                      n("bijector_args"): ar_, n("bijector_kwargs"): False,
+                      ("a", SELF, "weak"): False}
+            for x in is_inst:
+                facts_[x] = in_
+            # the default bijector exists in the 'default' scenario
+            for _, cond in helpers:
+                for a, _p in cond:
+                    for x in subterms(a):
+                        if x[0] == "cmp" and x[1] == "is" and x[3] == c(None) and x[2] != BJ:
+                            facts_[x] = False
+            reached = []
+            for t, cond in helpers:
+                v = partial_eval(("path", tuple(cond)), facts_)
+                if v == c(True):
+                    reached.append(t[1][1].rsplit("_", 1)[-1])
+                elif v != c(False):
+                    reached.append("?" + t[1][1].rsplit("_", 1)[-1])
+            want = ["instance"] if kind == "instance" else ["class"]
+            if reached != want:
+                wrong.append(f"{kind} bijector -> {reached or 'no helper'}")
+        ctx.ob("C14.R2", tr, "a bijector class (with arguments) and the default (None) go to "
+                             "the class helper, an instance to the instance helper", not wrong,
+               unproven=any("?" in w for w in wrong), detail="; ".join(wrong),
+               stmt="dispatch conditions " + "; ".join(wrong))
 
     # ------------------------------------------------------------------ R3
     bm = repo.func(f"{MODEL}.GraphBuilder.build_model")
